@@ -42,6 +42,10 @@ fn ref_min(h: &Handles, t: Triple) -> Result<Option<Triple>, ()> {
 }
 
 pub fn check_triple(h: &Handles, t: Triple, st: &mut Stats, mode: Count) {
+    netted(st, || h.case(t), 3, |st| check_triple_inner(h, t, st, mode));
+}
+
+fn check_triple_inner(h: &Handles, t: Triple, st: &mut Stats, mode: Count) {
     st.eval();
     let x = h.lib(t);
     let case = || h.case(t);
@@ -121,6 +125,10 @@ pub fn check_triple(h: &Handles, t: Triple, st: &mut Stats, mode: Count) {
 }
 
 pub fn check_parts(h: &Handles, p: &values::Parts, st: &mut Stats, mode: Count) {
+    netted(st, || values::parts_case(p), values::parts_case(p).to_string().len(), |st| check_parts_inner(h, p, st, mode));
+}
+
+fn check_parts_inner(h: &Handles, p: &values::Parts, st: &mut Stats, mode: Count) {
     st.eval();
     let case = || values::parts_case(p);
     let size = case().to_string().len();
